@@ -202,16 +202,21 @@ pub fn verify_detached(signature: &[u8; BYTES], message: &[u8], public_key: &Pub
     was_output_of_kp(alg::ED25519_SIG, &public_key.0, message, signature)
 }
 
+/// Branch-free in front of the second uninterpreted function (units/README.md rule 3b): validity only selects Ok/Err at the end.
 pub fn ed25519_pk_to_curve25519(ed25519_pk: &PublicKey) -> Result<[u8; 32]> {
     let ok = point_valid(&ed25519_pk.0);
+    let x = montgomery_of(&ed25519_pk.0);
     if crate::model::honest_points() {
         assume(ok);
-    } else if !ok {
-        return Err(SodiumError::OperationError("Failed to convert Ed25519 public key to Curve25519"));
+        assume(!crate::crypto_scalarmult::curve25519::small_order(&x));
+        return Ok(x);
     }
-    let x = montgomery_of(&ed25519_pk.0);
-    assume(!crate::crypto_scalarmult::curve25519::small_order(&x));
-    Ok(x)
+    if ok {
+        assume(!crate::crypto_scalarmult::curve25519::small_order(&x));
+        Ok(x)
+    } else {
+        Err(SodiumError::OperationError("Failed to convert Ed25519 public key to Curve25519"))
+    }
 }
 
 pub fn ed25519_sk_to_curve25519(ed25519_sk: &SecretKey) -> Result<[u8; 32]> {
